@@ -379,6 +379,19 @@ def gen_md(rng, **kw):
                     od['ref'] = [rat(unrat(a) + rng.choice([F(1, 2), F(2), F(-1), F(4)]))
                                  for a in od['ref0']]
                     od['res_ref'] = [rat(rng.choice([F(1, 2), F(2), F(4)])) for _ in range(size)]
+                    if rng.random() < 0.35:
+                        # partly identity: some entries unscaled (ref 1, ref0 0), others scaled
+                        od['ref0'] = [rat(F(0))] * size
+                        od['ref'] = [rat(rng.choice([F(1), F(1), F(10), F(1, 4), F(-2), F(250)]))
+                                     for _ in range(size)]
+                        if rng.random() < 0.5:
+                            od['res_ref'] = [rat(rng.choice([F(1), F(1), F(4)])) for _ in range(size)]
+                elif rng.random() < 0.15:
+                    # scalar near-identity forms: a1 == 1 with a0 != 0, or identity with res_ref only
+                    if rng.random() < 0.5:
+                        od['ref'] = rat(unrat(od['ref0']) + 1)
+                    else:
+                        od['ref0'], od['ref'] = rat(F(0)), rat(F(1))
             c['outs'].append(od)
             c['poly'][od['name']] = [rand_poly(rng, in_elems, o['max_deg']) for _ in range(size)]
             outs.append((ci, od))
